@@ -4,3 +4,13 @@ check_C14() {
   build_inpkg c14_roundtrip_verif_test.go
   inpkg_test inpkg TestVerifC14
 }
+
+check_C16() {
+  build_inpkg c16_dialogid_verif_test.go
+  inpkg_test inpkg TestVerifC16
+}
+
+check_C18() {
+  build_inpkg c18_static_route_verif_test.go
+  inpkg_test inpkg TestVerifC18
+}
